@@ -165,11 +165,29 @@ def pmap(fn, items, workers=None):
 # ------------------------------------------------------------------------------------------------
 # TLC
 # ------------------------------------------------------------------------------------------------
-def spec_hash(extra=""):
+def _module_closure(module, seen=None):
+    """module plus every spec/ module it (transitively) EXTENDS or INSTANCEs"""
+    seen = seen if seen is not None else set()
+    f = os.path.join(SPEC, module + ".tla")
+    if module in seen or not os.path.exists(f):
+        return seen
+    seen.add(module)
+    text = open(f).read()
+    for m in re.finditer(r"^\s*EXTENDS\s+([^\n]+)", text, re.M):
+        for name in m.group(1).split(","):
+            _module_closure(name.strip(), seen)
+    for m in re.finditer(r"INSTANCE\s+(\w+)", text):
+        _module_closure(m.group(1), seen)
+    return seen
+
+
+def spec_hash(module, cfg, extra=""):
+    """hash of the spec text a TLC run depends on: the module's EXTENDS closure and its cfg"""
     h = hashlib.sha256()
-    for f in sorted(glob.glob(os.path.join(SPEC, "*.tla")) + glob.glob(os.path.join(SPEC, "*.cfg"))):
-        h.update(f.encode())
-        h.update(open(f, "rb").read())
+    for m in sorted(_module_closure(module)):
+        h.update(m.encode())
+        h.update(open(os.path.join(SPEC, m + ".tla"), "rb").read())
+    h.update(open(os.path.join(SPEC, cfg), "rb").read())
     h.update(extra.encode())
     return h.hexdigest()[:16]
 
@@ -210,7 +228,7 @@ def tlc_run(module, cfg, tag, timeout=3000, workers=None, env_extra=None, simula
     """Run TLC on spec/<module>.tla with spec/<cfg>; returns (stats, raw_output_path).
     Results are cached under work/tlc/<spec-hash>-<tag>.out (they depend on the spec only)."""
     os.makedirs(os.path.join(WORK, "tlc"), exist_ok=True)
-    key = spec_hash(module + cfg + str(simulate) + json.dumps(env_extra or {}, sort_keys=True))
+    key = spec_hash(module, cfg, str(simulate) + json.dumps(env_extra or {}, sort_keys=True))
     outp = os.path.join(WORK, "tlc", "%s-%s.out" % (tag, key))
     if cache and os.path.exists(outp + ".ok"):
         text = open(outp).read()
